@@ -390,6 +390,22 @@ def rules(ck, P):
                      "the result depends on whether a lock is free: the contended path applies %s, the uncontended path %s (difference %s) — concurrent calls can return what a call running alone never returns"
                      % (sorted(sums[0]), sorted(sums[1]) if len(sums) > 1 else [], sorted(set.union(*sums) - set.intersection(*sums))), ir.loc(n))
     ck.ok("R-CONTENTION", "census", "%d contention-dependent branches (try_lock & co.) in reader types; each must apply the same transformations on both outcomes" % n_try)
+    # set-once cells are accepted as interior state because initialisation is race-free — which holds for get_or_init / get_or_try_init
+    # (all callers get the winner's value) but not for "if empty { set(x).unwrap() }": of two first callers one loses the race, `set`
+    # returns Err(x) and the unwrap panics, so the concurrent call does not return what it returns when run alone
+    n_set = 0
+    for b in P.bodies:
+        if "::tests::" in b["q"] or b.get("target") not in (None, "lib", "bin"):
+            continue
+        for y, ps, _ in ir.walk(b["body"]):
+            if y.get("k") == "mcall" and y.get("name") in ("set", "try_insert") and any(w in ((ir.strip(y["recv"]).get("t") or "") + (ir.strip(y["recv"]).get("ta") or "")) for w in ("OnceLock<", "OnceCell<")):
+                n_set += 1
+                must = [p_ for p_ in ps[-3:] if p_.get("k") == "mcall" and p_.get("name") in ("unwrap", "expect", "unwrap_or_else") and ir.contains(p_["recv"], lambda z: z is y)]
+                tried = [p_ for p_ in ps[-3:] if p_.get("k") == "try" and ir.contains(p_["e"], lambda z: z is y)]
+                ck.check(not must and not tried, "R-INTERIOR", "%s|once-set" % b["q"], "a lost initialisation race of a set-once cell is tolerated (result of set() not demanded)",
+                         "%s demands that its OnceLock::set succeeds (%s): when two callers initialise the cell at the same time the loser panics / fails although the same call succeeds when run alone; use get_or_init" %
+                         (b["q"], "unwrap/expect" if must else "?"), ir.loc(y))
+    ck.ok("R-INTERIOR", "once-set-census", "%d explicit set() calls on set-once cells; each must tolerate losing the race" % n_set)
     for b in P.bodies:
         if b["dk"].startswith("Static") and "Mut" in b["dk"] and "Not" not in b["dk"]:
             ck.violation("R-INTERIOR", "static-mut|" + b["q"], "static mut item in workspace", ir.loc(b))
